@@ -46,6 +46,8 @@ AFont == /\ t <= N /\ ph = "font"
               /\ (Cur.result = "AssertionError") => (bad /\ "BadFormatAsserts" \in Dev)
               /\ (Cur.result = "ok") => (Cur.hascmap /\ use)
               /\ (~Cur.hascmap \/ (~use /\ ~bad)) => Cur.result = "CMapNotFound"
+              \* anyglyph (harness's own OpenType reader): some usable subtable maps a character to a glyph other than 0
+              /\ (Cur.hascmap /\ use /\ Cur.anyglyph /\ ~(bad /\ "BadFormatAsserts" \in Dev)) => Cur.result = "ok"
          /\ ph' = "obs" /\ k' = 0 /\ UNCHANGED t
 AObs == /\ t <= N /\ ph = "obs" /\ k < Len(Cur.obs)
         /\ Cur.obs[k + 1][2] = ModelGlyph(Cur.obs[k + 1][1])
